@@ -5,7 +5,7 @@
    `wf` excludes keywords as path heads and a reference whose referent is again a reference (known finding D10: the real parser panics on `Option<&'a &'a u8>`).
    That rustc accepts the expansion (trait resolution, lifetimes, hygiene) cannot be modelled here; it is TESTED by compiling generated declarations. *)
 From Coq Require Import List Arith String.
-Require Import P.ParseModel P.ParseGrammar P.ParseProof P.ParsePrintModel P.ParsePrint P.ParseDecl P.ParseDeclGrammar P.ParseDeclProof.
+Require Import P.ParseModel P.ParseGrammar P.ParseProof P.ParsePrintModel P.ParsePrint P.ParseDecl P.ParseDeclGrammar P.ParseDeclProof P.ParseInterp P.ParseInterpProof.
 Theorem parse_complete : forall t rest, wf t -> stop rest -> next_type (S (depth t)) (lex t ++ rest) = Ok (Some (embed t)) rest.
 Proof. exact ParseProof.parse_complete. Qed.
 (* what the templates consume of an `Option<X>` field: the base name and the wrapped type *)
@@ -31,6 +31,28 @@ Proof. exact ParsePrint.print_parse_roundtrip. Qed.
 Theorem struct_parse_complete : forall dedup_ty dedup_lt fuel d, wf_decl fuel d ->
   parse_data dedup_ty dedup_lt fuel (lexd d) = Ok (expected dedup_ty dedup_lt d) nil.
 Proof. exact ParseDeclProof.struct_parse_complete. Qed.
+(* the INTERPRETATION of attributes (derive/src/shared.rs; model P/ParseInterp.v): two attribute lists that carry the same difference items —
+   however grouped into one or several #[difference(..)], comma-terminated or not, in any order, between any foreign attributes and doc
+   comments — are read identically (skip, recurse, setters, map and collection strategy, setter options), provided no item name occurs twice.
+   The per-item readings are ParseInterpProof.flag_spec, map_strategy_spec, collection_type_spec, setter_spec. *)
+Theorem interpretation_stable : forall attrs1 attrs2,
+  Permutation.Permutation (items_of attrs1) (items_of attrs2) -> NoDup (map item_name (items_of attrs1)) ->
+  attrs_skip (exp_attrs attrs1) = attrs_skip (exp_attrs attrs2) /\
+  attrs_recurse (exp_attrs attrs1) = attrs_recurse (exp_attrs attrs2) /\
+  attrs_all_setters (exp_attrs attrs1) = attrs_all_setters (exp_attrs attrs2) /\
+  attrs_map_strategy (exp_attrs attrs1) = attrs_map_strategy (exp_attrs attrs2) /\
+  attrs_collection_type (exp_attrs attrs1) = attrs_collection_type (exp_attrs attrs2) /\
+  attrs_setter (exp_attrs attrs1) = attrs_setter (exp_attrs attrs2).
+Proof. exact ParseInterpProof.interpretation_stable. Qed.
+Theorem attribute_readings : forall items, NoDup (map item_name items) ->
+  (forall n, flag n (map exp_item items) = true <-> In (IFlag n) items) /\
+  attrs_map_strategy (map exp_item items) = map_of (lookup "map_equality" items) /\
+  attrs_collection_type (map exp_item items) = coll_of (lookup "collection_strategy" items) (map_of (lookup "map_equality" items)) /\
+  (forall n v, lookup n items = Some v <-> In (IKv n v) items).
+Proof.
+  intros items ND. split; [intros n; apply flag_spec|]. split; [apply map_strategy_spec; exact ND|]. split; [apply collection_type_spec; exact ND|].
+  intros n v. apply lookup_in. exact ND.
+Qed.
 (* the finding the proof produced: `&&T` is not consumed as one type (the real parser then panics on the leftover) *)
 Example nested_ref_not_one_type :
   next_type 5 (lex (GRef None (GRef None (GPath "T" nil nil)))) = Ok (Some (Ty CUnNamed None (Some None) None)) (TP PAmp :: TId "T" :: nil).
@@ -39,3 +61,5 @@ Print Assumptions parse_complete.
 Print Assumptions option_is_recognised.
 Print Assumptions print_parse_roundtrip.
 Print Assumptions struct_parse_complete.
+Print Assumptions interpretation_stable.
+Print Assumptions attribute_readings.
